@@ -75,11 +75,13 @@ Proof. vm_compute. reflexivity. Qed.
    every scalar expression (integer / boolean / nil literals, prefix - and !, arithmetic and comparison
    operators, short-circuit && and ||, the conditional; any nesting), exactly the code of the pure function
    [cexp] - jump distances included -, appends exactly its constants and changes nothing else of its state. ---- *)
+From Coq Require Import NArith ZArith.
 Require Import RV.model.Syntax RV.model.Compiler RV.model.ScalarFrag RV.proofs.BackendProofs.
+Local Open Scope nat_scope.
 Theorem C01_back_compile_scalar : forall e f st w r,
   st_stack st = w :: r -> height e <= f ->
   compile f (embed e) st =
-  inr (I (fst (cexp (length (w_consts w)) e)), add_consts st (snd (cexp (length (w_consts w)) e))).
+  inr (I (fst (cexp (List.length (w_consts w)) e)), add_consts st (snd (cexp (List.length (w_consts w)) e))).
 Proof. exact compile_scalar. Qed.
 
 (* Non-vacuity: 1 + 2 * 3 < 10 && !nil on the initial compiler state *)
